@@ -911,7 +911,10 @@ def pncexpr(expr, ifile, verbose=0):
                 cand = vardict.get(symbol.get_name(), None)
                 if (
                     cand is not val and hasattr(cand, 'dimensions') and
-                    tuple(np.shape(cand)) == tuple(np.shape(val))
+                    tuple(np.shape(cand)) == tuple(np.shape(val)) and
+                    tuple(len(ifile.dimensions[dk])
+                          if dk in ifile.dimensions else -1
+                          for dk in cand.dimensions) == tuple(np.shape(cand))
                 ):
                     vdimt = cand.dimensions
                     break
